@@ -29,6 +29,7 @@ type Op struct {
 type Decision struct {
 	Inject  error // non-nil: do not perform the step, fail it with this error
 	Timeout bool  // for "wait": the caller's wait-timeout fires instead of the retry delay
+	Real    bool  // for "wait": wait on the real clock (controllers that do not virtualise time)
 }
 
 type Controller interface {
@@ -234,6 +235,10 @@ func openContext(ctx context.Context, retryDelay time.Duration, path string, fla
 func After(d time.Duration) <-chan time.Time {
 	op, dec := enter("wait", "", "")
 	if op == nil {
+		return time.After(d)
+	}
+	if dec.Real {
+		exit(op, "real-time")
 		return time.After(d)
 	}
 	ch := make(chan time.Time, 1)
